@@ -405,3 +405,26 @@ def register(reg):
       "above every row id, row ids distinct. Three recorded findings (known_findings.json).",
       "Lean 4 theorems (fold invariant accumulate-vs-immediate, per-row view of update sequences, trim harmless without repeated "
       "ids) + differential correspondence through a live engine + independent reference oracle")
+
+  reg("C15", "proof",
+      "The trigger-formula recalculation MECHANISM is modelled for one trigger column over one bundle "
+      "(GristModel/Trigger.lean: edges built by _maybe_update_trigger_dependencies only at the end of a bundle, "
+      "SingleRowsIdentityRelation, invalidation by BulkAdd/Update/RemoveRecord doc actions, data_cols_to_recompute, "
+      "trim_update_action, _prevent_recompute_map cleared per user action, MANUAL_UPDATES invalidation, self-dependency "
+      "un-prevent, doc actions replayed by ApplyUndoActions) and the SPEC RecalcSet is written from the property text "
+      "(per user action: trigger / protect; recalculated iff the last such event is a trigger; executable form recalcB "
+      "proved equivalent). Proved for ALL configurations, tables and bundles: recalcSet_subset_mechanism (every cell the "
+      "property wants recalculated is evaluated, provided the edges are those of the live configuration), "
+      "trigger_mechanism_eq_spec_partial (evaluated cells = RecalcSet on the decidable domain inDomain), "
+      "changed_dep_recalculated, schema_only_never_recalculates; and the NEGATION of the unrestricted statement "
+      "(trigger_mechanism_eq_spec_false) with one witness per hypothesis (witness_add/_trim/_last/_stale/_stale_missing/"
+      "_readd/_failed), each replayed on the real engine every run. Only differentially validated: that the model equals "
+      "the engine (evaluated cells observed with engine.formula_tracer and through a counter formula, on histories and an "
+      "exhaustive small scope, for every trigger column of every bundle) and that the Lean spec lies within the independent "
+      "Python reading of the property.",
+      "recalcDeps are plain data columns, formula columns over plain data columns, or the column itself; values of the "
+      "column's type; tie skipped (oracle applied) for bundles with record edits after a schema change; six recorded findings "
+      "(known_findings.json): supplied value on add overwritten, trimmed explicit value, exemptions cleared per user "
+      "action, stale edges within a bundle, stale entry on re-added row id, entries surviving a failed bundle.",
+      "Lean 4 theorems (characterisation of the state machine by per-action predicates + list decomposition) + differential "
+      "correspondence through a live engine + independent reference oracle")
